@@ -118,18 +118,22 @@ class Compiler:
         """Compile a program to bytecode."""
         body = node.body
 
-        # Compile all statements except the last one
-        for stmt in body[:-1] if body else []:
-            self._compile_statement(stmt)
+        try:
+            # Compile all statements except the last one
+            for stmt in body[:-1] if body else []:
+                self._compile_statement(stmt)
 
-        # For the last statement, compile with completion value semantics
-        if body:
-            self._compile_statement_for_value(body[-1])
-            self._emit(OpCode.RETURN)
-        else:
-            # Empty program returns undefined
-            self._emit(OpCode.LOAD_UNDEFINED)
-            self._emit(OpCode.RETURN)
+            # For the last statement, compile with completion value semantics
+            if body:
+                self._compile_statement_for_value(body[-1])
+                self._emit(OpCode.RETURN)
+            else:
+                # Empty program returns undefined
+                self._emit(OpCode.LOAD_UNDEFINED)
+                self._emit(OpCode.RETURN)
+        except RecursionError:
+            # The compiler recurses over the syntax tree
+            raise self._syntax_error(node, "Program is nested too deeply")
 
         return CompiledFunction(
             name="<program>",
